@@ -265,6 +265,20 @@ func (c *Cluster) fetch(b *Broker, r *Req, done func(rc.Msg)) {
 				pm["high_watermark"] = p.LEO
 				pm["last_stable_offset"] = p.LEO
 				pm["log_start_offset"] = p.LogStart
+				if ver >= 4 && r.Body.I8("isolation_level") == 1 {
+					// read_committed: the transactions aborted within the range
+					// the fetch may cover (the client is expected to filter)
+					ab := []rc.Msg{}
+					for _, a := range p.Aborted {
+						if a.Last >= fp.off {
+							ab = append(ab, rc.Msg{"producer_id": a.ProducerID, "first_offset": a.First})
+						}
+					}
+					pm["aborted_transactions"] = ab
+					if len(ab) > 0 {
+						c.S.Count("fetch-with-aborted-transactions-index")
+					}
+				}
 				var recs []byte
 				limit := int(fp.max)
 				if limit > budget {
